@@ -115,28 +115,83 @@ def generic_driver_run(ctx, drv: FuncInfo, summaries=None, max_paths=400):
     return ex, paths
 
 
-def _eval_uses(x, out, parent=None, seen=None):
-    """collect (eval atom, parent atom) occurrences inside a normal form / atom tree"""
-    seen = seen if seen is not None else set()
+ELEMENTWISE = {"max", "min", "abs", "P", "log"}
+
+
+def _eval_uses(x, out, chain=()):
+    """collect (eval atom, chain of enclosing atoms from the outside in) occurrences"""
     if isinstance(x, NF):
         for p in (x.num, x.den):
             for m in p:
                 for a, _ in m:
-                    _eval_uses(a, out, parent, seen)
+                    _eval_uses(a, out, chain)
     elif isinstance(x, Atom):
         if x.kind == "app" and x.args[0] == "eval":
-            out.append((x, parent))
+            out.append((x, chain))
             return
         if x.kind == "P":
             from ..nf import poly_of_P
 
-            _eval_uses(NF(poly_of_P(x)), out, x, seen)
+            _eval_uses(NF(poly_of_P(x)), out, chain + (x,))
             return
         for a in x.args:
-            _eval_uses(a, out, x, seen)
+            _eval_uses(a, out, chain + (x,))
     elif isinstance(x, (tuple, list)):
         for y in x:
-            _eval_uses(y, out, parent, seen)
+            _eval_uses(y, out, chain)
+
+
+def _leaves(x):
+    """atoms of a normal form, looking through elementwise wrappers but not into the
+    arguments of other applications (positions, cuts, ...)"""
+    out = []
+    if isinstance(x, NF):
+        for p in (x.num, x.den):
+            for m in p:
+                for a, _ in m:
+                    out.extend(_leaves(a))
+    elif isinstance(x, Atom):
+        if x.kind == "P":
+            from ..nf import poly_of_P
+
+            out.extend(_leaves(NF(poly_of_P(x))))
+        elif x.kind in ("max", "min", "abs"):
+            for y in x.args:
+                out.extend(_leaves(lift(y)))
+        elif x.kind == "log":
+            out.extend(_leaves(x.args[0]))
+        else:
+            out.append(x)
+    return out
+
+
+def _symmetric_use(ex, ev_atom, chain):
+    """(ok, site) - the eval output reaches a column-symmetric reduction through column-wise
+    elementwise operations only, with no other column-dependent operand"""
+    from ..models import atom_varies
+
+    # innermost enclosing reduction
+    for k in range(len(chain) - 1, -1, -1):
+        a = chain[k]
+        if a.kind == "app" and a.args[0] in ("sum", "pen"):
+            if a.args[0] == "sum" and not (len(a.args) >= 3 and a.args[2] == 1):
+                return False, None
+            between = chain[k + 1:]
+            if any(not (b.kind in ELEMENTWISE) for b in between):
+                return False, None
+            inner = a.args[1]
+            if not isinstance(inner, NF):
+                return False, None
+            shp = ex.atom_shapes.get(ev_atom.key)
+            for other in _leaves(inner):
+                if other.kind == "app" and other.args[0] == "eval":
+                    continue
+                if other.kind in ("Q", "logq"):
+                    continue
+                if shp is not None and len(shp) == 2 and atom_varies(ex, other, shp, 1):
+                    return False, None
+            return True, (a.args[0], ev_atom.args[1])
+    return False, None
 
 
 def _values_of(path):
@@ -213,17 +268,14 @@ def check_agg(ctx):
                     for nf in nfs:
                         uses = []
                         _eval_uses(nf, uses)
-                        for ev_atom, parent in uses:
-                            ok = parent is not None and parent.kind == "app" and (
-                                (parent.args[0] == "sum" and len(parent.args) >= 3 and parent.args[2] == 1 and isinstance(parent.args[1], NF) and nf_equal(parent.args[1], NF.atom(ev_atom)))
-                                or (parent.args[0] == "pen" and isinstance(parent.args[1], NF) and nf_equal(parent.args[1], NF.atom(ev_atom)))
-                            )
-                            if ok:
-                                good_sites.add((parent.args[0], ev_atom.args[1]))
-                            elif parent is None and e.kind == "scorer_evaluate":
+                        for ev_atom, chain in uses:
+                            if not chain and e.kind == "scorer_evaluate":
                                 continue  # the evaluate call itself
+                            ok, site = _symmetric_use(ex, ev_atom, chain)
+                            if ok:
+                                good_sites.add(site)
                             else:
-                                bad.setdefault((e.loc(), repr(parent)[:160] if parent is not None else "used directly"), e)
+                                bad.setdefault((e.loc(), repr(chain[-1])[:160] if chain else "used directly"), e)
             for (loc, how), e in list(bad.items())[:4]:
                 ctx.violation(rule, f"{target.name}|use", loc, "a scorer's per-column output is consumed by something other than a column sum (axis=1): the result can depend on the order or the selection of columns", found=how, expected="sum(eval(...), axis=1)")
             if not bad:
